@@ -563,6 +563,8 @@ var hostileKeys = []string{
 	".modtime-resolution", "metadata", "buckets", "_meta", "bucket/bkt-aaa", "victim-" + "0000000000000000",
 	strings.Repeat("L", 255), strings.Repeat("M", 256), "seg/" + strings.Repeat("N", 300) + "/end",
 	"fresh/" + strings.Repeat("P", 300), "fresh2/er/" + strings.Repeat("Q", 256), "seg3/" + strings.Repeat("R", 300) + "/x/y",
+	// storable keys that agree in their first couple of hundred bytes
+	"lp/" + strings.Repeat("p", 210) + "-one", "lp/" + strings.Repeat("p", 210) + "-two", strings.Repeat("q", 250) + "/x", strings.Repeat("q", 250) + "/y",
 }
 
 func (g *G) genC10(p *Plan) {
